@@ -1,7 +1,115 @@
 import RotondaModel.Model.HttpServer
-import RotondaModel.Proofs.Http
-/-! Helper lemmas for the HttpServer theorems. -/
+import RotondaModel.Proofs.HttpServerWire
+import RotondaModel.Props.C12
+/-! Helper lemmas for the HttpServer theorems: what `answer` (the handler behind the service function,
+    in both readings of `Accept-Encoding`) inherits from C12's theorems about `Http.handle`. -/
 namespace Rotonda.HttpServer
 open Rotonda.Http
+
+theorem toReq_method_get (m : Msg) : (toReq m).method = .get ↔ m.method = sGET := by
+  unfold toReq; by_cases h : m.method = sGET <;> simp [h]
+
+theorem specStatus_compress (d : Deps) (reg : Registry) (req : Req) :
+    specStatus d { reg with compress := false } req = specStatus d reg req := rfl
+
+/-- the status law of C12 holds behind the listener, for both readings of Accept-Encoding -/
+theorem answer_status (c : Cfg) (m : Msg) (r : Resp) (h : answer c m = .ok r) :
+    r.status = specStatus c.d c.reg (toReq m) ∧ (r.status = 400 → r.reason = true) := by
+  unfold answer at h
+  by_cases hv : c.v.aeGzip = true
+  · simp only [hv, if_true] at h
+    exact C12_status_law _ _ _ _ _ h
+  · simp only [hv, Bool.false_eq_true, if_false] at h
+    cases hh : handle c.v.http c.d { c.reg with compress := false } (toReq m) with
+    | panic s => simp [hh] at h
+    | ok r0 =>
+      simp only [hh, Outcome.ok.injEq] at h
+      have := C12_status_law _ _ _ _ _ hh
+      rw [specStatus_compress] at this
+      subst h; exact this
+
+theorem specStatus_mem (d : Deps) (reg : Registry) (req : Req) :
+    specStatus d reg req = 200 ∨ specStatus d reg req = 400 ∨ specStatus d reg req = 404 ∨ specStatus d reg req = 405 := by
+  unfold specStatus
+  cases req.method with
+  | other => simp
+  | get =>
+    simp only
+    split
+    · simp
+    · split
+      · simp
+      · split <;> simp
+
+/-- code as written: gzip iff GET, compression configured, header readable and containing `gzip` -/
+theorem answer_gzip_as_written (c : Cfg) (m : Msg) (r : Resp) (hv : c.v.aeGzip = true) (h : answer c m = .ok r) :
+    r.gzip = true ↔ (m.method = sGET ∧ c.reg.compress = true ∧ acceptsGzip m.acceptEnc = true) := by
+  unfold answer at h
+  simp only [hv, if_true] at h
+  have := C12_gzip _ _ _ _ _ h
+  rw [this, toReq_method_get]; rfl
+
+/-- repaired: gzip iff GET, compression configured, and gzip acceptable per RFC 9110 -/
+theorem answer_gzip_repaired (c : Cfg) (m : Msg) (r : Resp) (hv : c.v.aeGzip = false) (h : answer c m = .ok r) :
+    r.gzip = true ↔ (m.method = sGET ∧ c.reg.compress = true ∧ acceptsGzipRfc m.acceptEnc = true) := by
+  unfold answer at h
+  simp only [hv, Bool.false_eq_true, if_false] at h
+  cases hh : handle c.v.http c.d { c.reg with compress := false } (toReq m) with
+  | panic s => simp [hh] at h
+  | ok r0 =>
+    simp only [hh, Outcome.ok.injEq] at h
+    subst h
+    simp [and_left_comm, and_assoc]
+
+/-- no handler panic once the four C12 sites are repaired, in both readings -/
+theorem answer_no_panic (c : Cfg) (m : Msg) (hv : c.v.http = Http.repaired) : ∃ r, answer c m = .ok r := by
+  unfold answer
+  by_cases ha : c.v.aeGzip = true
+  · simp only [ha, if_true, hv]; exact C12_no_panic_repaired _ _ _
+  · simp only [ha, Bool.false_eq_true, if_false, hv]
+    obtain ⟨r, hr⟩ := C12_no_panic_repaired c.d { c.reg with compress := false } (toReq m)
+    exact ⟨_, by rw [hr]⟩
+
+theorem answer_non_get (c : Cfg) (m : Msg) (hm : m.method ≠ sGET) : answer c m = .ok r405 := by
+  have hreq : (toReq m).method = .other := by unfold toReq; simp [hm]
+  unfold answer
+  by_cases ha : c.v.aeGzip = true
+  · simp only [ha, if_true]; exact C12_non_get_405 _ _ _ _ hreq
+  · simp only [ha, Bool.false_eq_true, if_false, C12_non_get_405 _ _ _ _ hreq]
+    simp [r405, hm]
+
+/-- a dropped connection in the model is a handler panic -/
+theorem serveAux_dropped_mem (c : Cfg) (s : Site) :
+    ∀ (fuel : Nat) (lv : Bool) (buf : Bytes), Out.dropped s ∈ serveAux c fuel lv buf →
+      ∃ m, answer c m = .panic s := by
+  intro fuel
+  induction fuel with
+  | zero => intro lv buf hm; simp [serveAux] at hm
+  | succ f ih =>
+    intro lv buf hm
+    rw [serveAux] at hm
+    cases hw : headWindow buf with
+    | none => simp [hw] at hm
+    | some ph =>
+      cases ph with
+      | more => simp [hw] at hm
+      | bad code => simp [hw, onParseError] at hm; split at hm <;> simp at hm
+      | ok h rest =>
+        simp only [hw] at hm
+        cases hi : interpret h with
+        | bad code => simp [hi, onParseError] at hm; split at hm <;> simp at hm
+        | unsupported => simp [hi] at hm
+        | ok m =>
+          simp only [hi] at hm
+          cases ha : answer c m with
+          | panic s' => simp [ha] at hm; exact ⟨m, by rw [ha, hm]⟩
+          | ok r =>
+            simp only [ha] at hm
+            split at hm
+            · simp at hm
+            · simp only [List.mem_cons] at hm
+              cases hm with
+              | inl e => cases e
+              | inr hm => exact ih _ _ hm
 
 end Rotonda.HttpServer
